@@ -525,7 +525,7 @@ impl Style {
 }
 
 fn gen_comment(rng: &mut Rng, st: &Style) -> String {
-    let words = ["note", "x <-- y", "TODO", "signal input a;", "1 / 0", "}", "{", "\"", "include"];
+    let words = ["note", "x <-- y", "TODO", "signal input a;", "1 / 0", "}", "{", "\"", "incl"];
     let mut body = String::new();
     for _ in 0..rng.usize(3) {
         let w: &str = words[rng.usize(words.len())];
@@ -1937,6 +1937,7 @@ impl Project {
     pub fn render_with_layout(&self, rng: &mut Rng, style: &Style) -> (crate::world::World, Layout) {
         let mut w = crate::world::World::default();
         let mut layout = Layout::default();
+        let base = rng.clone();
         for f in &self.files {
             let mut text = String::new();
             let mut head = f.clone();
@@ -1948,7 +1949,6 @@ impl Project {
                 text.push_str(&render(&toks, style, rng));
             }
             let mut entries = Vec::new();
-            let base = rng.clone();
             for d in &f.defs {
                 let mut toks = Vec::new();
                 def_tokens(d, &mut toks);
